@@ -431,9 +431,11 @@ func GenC09(rng *rand.Rand, thorough bool, emit func(*Sx)) {
 		kind string // ok bad star
 	}
 	initial := []cstep{{"", "ok"}, {"=", "ok"}, {b64([]byte("\x00user\x00pass")), "ok"}, {"!!!notbase64", "bad"}, {b64([]byte{0, 255, 13, 10}), "ok"}}
-	later := []cstep{{b64([]byte("resp")), "ok"}, {"=", "ok"}, {"", "ok"}, {"*", "star"}, {"%%%", "bad"}, {b64([]byte{0x80, 0, 0xff}), "ok"}}
+	later := []cstep{{b64([]byte("resp")), "ok"}, {"=", "ok"}, {"", "ok"}, {"*", "star"}, {"%%%", "bad"}, {b64([]byte{0x80, 0, 0xff}), "ok"},
+		// answers that spell a command: well-formed base64 for three octets, nothing else
+		{"QUIT", "ok"}, {"quit", "ok"}, {"RSET", "ok"}}
 	chals := [][]byte{nil, []byte("challenge"), {0, 255, 10, 13}, []byte("a"), bytes.Repeat([]byte("long challenge "), 30), bytes.Repeat([]byte{0xfe, 0x01}, 700), {}}
-	// (seven challenges, six later answers: coprime, so that every challenge meets every answer)
+	// (seven challenges, nine later answers: coprime, so that every challenge meets every answer)
 	genC09AfterErrors(rng, emit)
 	genC09LongResponse(rng, emit)
 	n := 0
